@@ -259,18 +259,21 @@ Proof.
   - cbn [nth app]. now apply quoted_strict_quote.
 Qed.
 
-(** the disposition field for a parsed type, and the defect for an unparsable one *)
-Lemma disp_list_strict t ps : t <> [] -> clean t = true ->
-  exists rest, disp_list (Some (t, ps)) = LP :: quote_or_nil (to_upper t) ++ rest
-               /\ quoted_strict (quote_or_nil (to_upper t)) = true.
+(** the disposition field: NIL, or a list that starts with ONE quoted string —
+    for every type text without CR/LF, parsed or not (fix c1eb865) *)
+Lemma disp_list_strict disp :
+  match disp with Some (t, _) => clean t = true | None => True end ->
+  disp_list disp = NIL
+  \/ exists t ps rest, disp = Some (t, ps) /\ disp_list disp = LP :: quote_or_nil (to_upper t) ++ rest
+                       /\ quoted_strict (quote_or_nil (to_upper t)) = true.
 Proof.
-  intros Hne Hc. eexists. split; [reflexivity|].
-  apply quoted_strict_quote; [|now apply clean_to_upper].
-  destruct t; [congruence|discriminate].
+  destruct disp as [[t ps]|]; [|now left]. intros Hc.
+  destruct t as [|c t]; [now left|]. right. exists (c :: t), ps. eexists. split; [reflexivity|].
+  split; [reflexivity|]. apply quoted_strict_quote; [discriminate|now apply clean_to_upper].
 Qed.
 
-Lemma refuted_disposition_nil :
-  classify_disp (Some ([], [])) = Some disposition_nil
-  /\ disp_list (Some ([], [])) = S_ "(NIL NIL)"
-  /\ quoted_strict (S_ "NIL") = false.
+(** regression (fix c1eb865): what used to be printed for an unparsable
+    disposition does not start with a string *)
+Lemma old_disposition_nil_malformed :
+  quoted_strict (S_ "NIL") = false /\ disp_list (Some ([], [])) = NIL.
 Proof. vm_compute. auto. Qed.
